@@ -28,3 +28,29 @@ pub fn count_swept() { SWEPT.with(|c| c.set(c.get() + 1)); }
 pub fn take_stale() -> BTreeMap<String, u64> { STALE.with(|s| std::mem::take(&mut *s.borrow_mut())) }
 pub fn collections() -> u64 { COLLECTIONS.with(|c| c.get()) }
 pub fn swept() -> u64 { SWEPT.with(|c| c.get()) }
+
+// ---------------------------------------------------------------------------
+// H2: parser/lexer work counter
+// ---------------------------------------------------------------------------
+thread_local! {
+    static PARSER_WORK: Cell<u64> = const { Cell::new(0) };
+    static PARSER_LIMIT: Cell<u64> = const { Cell::new(0) };
+}
+/// Called once per token produced by the lexer and once per parser advance.
+#[inline]
+pub fn parser_work() {
+    PARSER_WORK.with(|c| {
+        let v = c.get() + 1;
+        c.set(v);
+        let lim = PARSER_LIMIT.with(|l| l.get());
+        if lim != 0 && v > lim {
+            // Disarm so that unwinding code does not panic again.
+            PARSER_LIMIT.with(|l| l.set(0));
+            panic!("verif: parser work limit exceeded");
+        }
+    });
+}
+pub fn parser_work_reset() { PARSER_WORK.with(|c| c.set(0)); }
+pub fn parser_work_get() -> u64 { PARSER_WORK.with(|c| c.get()) }
+/// 0 disarms the limit.
+pub fn parser_work_set_limit(limit: u64) { PARSER_LIMIT.with(|l| l.set(limit)); }
